@@ -87,6 +87,16 @@ def scenarios(rng, quick):
             for out in ["cwd", "dir"]:
                 for name in ["", "parser"]:
                     sc.append(dict(input=inp, out=out, pkg="missing", name=name, flags=[], after=after))
+    # the command line as the flag set reads it: both spellings of a flag, values after `=` or as the next argument, boolean
+    # values, the terminator, malformed flags, a missing value, flags given twice (the last one counts)
+    for raw in (["--out=OUT", "FILE"], ["-out=OUT", "-name=pkg", "FILE"], ["--name", "pkg", "--out", "OUT", "FILE"], ["-debug=true", "-out", "OUT", "FILE"],
+                ["-debug=maybe", "-out", "OUT", "FILE"], ["-verbose=0", "-out", "OUT", "FILE"], ["-out", "OUT", "--", "FILE"], ["-out", "OUT", "--", "FILE", "-x"],
+                ["-out", "OUT", "-", "FILE"], ["---out", "OUT", "FILE"], ["-=x", "FILE"], ["-help=false", "-out", "OUT", "FILE"], ["-out", "OUT", "FILE", "-h"],
+                ["-out", "OUT", "-h", "FILE"], ["--help"], ["-version=1", "FILE"], ["FILE", "-out"], ["-out", "OUT", "-name"], ["-out"], ["-name", "first", "-name", "pkg", "-out", "ELSE", "-out", "OUT", "FILE"],
+                ["-out", "OUT", "-name", "", "FILE"], ["-out", "OUT", "-name=", "FILE"], ["-debug", "-debug=false", "-out=OUT", "FILE"], ["-out", "OUT", "-version=false", "-help=f", "FILE"],
+                ["-out", "OUT", "--", "--", "FILE"], ["--", "-out", "OUT", "FILE"], ["-out", "OUT", "-nosuch=1", "FILE"], ["-out", "OUT", "-verbose=TRUE", "-debug=F", "FILE"], ["-help=T"], ["--h"], ["-h=1"]):
+        for inp in ["valid", "syntax"]:
+            sc.append(dict(input=inp, out="dir", pkg="missing", name="", flags=[], raw=raw))
     return sc
 
 
@@ -173,7 +183,7 @@ def run(ctx):
     quick = ctx.tier == "quick"
     ctx.build_go()
     ctx.build_emerge()
-    if not ctx.prepare(["fsops"], "Emerge.Props.C16", quick):
+    if not ctx.prepare(["fsops", "cliflags"], "Emerge.Props.C16", quick):
         return ctx.finish(LEVEL, {"evaluations": 0, "distinct_nontrivial": 0, "samples": [], "explanation": "aborted"}, [])
     emerge = os.path.join(BUILD, "emerge")
     root = tempfile.mkdtemp(prefix="verif-c16-")
@@ -251,6 +261,11 @@ def run(ctx):
             if name == "-":
                 # `-name <file>`: the file path becomes the name and no file argument is left
                 have_file = 0; eff = fileArg or ""; idvalid = 0
+            if "raw" in s:
+                os.makedirs(os.path.join(box, "else"), exist_ok=True)
+                args = [x.replace("OUT", outdir).replace("FILE", fileArg).replace("ELSE", os.path.join(box, "else")) for x in s["raw"]]
+                if "-name=pkg" in args or "pkg" in args:
+                    eff = "pkg"
             before = snapshot(box)
             p = subprocess.run([emerge] + args, cwd=cwd, stdout=subprocess.PIPE, stderr=subprocess.STDOUT, timeout=60)
             after = snapshot(box)
@@ -261,9 +276,9 @@ def run(ctx):
             stats["preexisting_paths_checked"] += len(before)
             actual.append(dict(scenario=s, args=args, exit=p.returncode, created=created, changed=changed, success=int("Successful!" in outtxt),
                                trace=int("goroutine " in outtxt and "[running]" in outtxt), output=outtxt[-600:], idvalid=idvalid, chosen_name=eff, outrel=os.path.relpath(outdir, box), files={c: after[c] for c in created}))
-            model_lines.append(("args=%s " % ",".join(hx(x) for x in [fileArg] + rest) if rest and fileArg else "") +
-                               "perr=%d usage=%d help=%d version=%d out=%s name=%s file=%d input=%s parse=%d gname=%s lexer=%d parser=%d idvalid=%d outstate=%s pkgstate=%s" % (
-                perr, usage, int("-help" in args), int("-version" in args), hx("O"), hx(name if name and name != "-" else "") if name != "-" else hx(eff), have_file, inp_state,
+            # the command line as typed goes to the model of the flag set (Emerge.CliArgs over the regenerated flag table)
+            model_lines.append("argv=%s cwd=%s input=%s parse=%d gname=%s lexer=%d parser=%d idvalid=%d outstate=%s pkgstate=%s" % (
+                ",".join(hx(x) if x else "-" for x in args) if args else "-", hx(cwd), inp_state,
                 spec_flags["parse"], hx(gname), spec_flags["lexer"], spec_flags["parser"], idvalid if idvalid is not None else 1, outstate, pkgstate))
             shutil.rmtree(box)
         model = ctx.run_model("cli", model_lines)
@@ -294,7 +309,7 @@ def run(ctx):
             ctx.add_violation("the tool printed a Go stack trace", dict(a, model=m))
         success_paths = all(any(c.endswith("/" + fn) for c in a["created"]) for fn in FILES)
         complete = success_paths and all(v[2] > 0 for c, v in a["files"].items() if v[0] == "file")
-        informational = any(x in a["args"] for x in ("-help", "-version", "-h")) and "-nosuch" not in a["args"]
+        informational = any(x.startswith("-") and x.lstrip("-").split("=")[0] in ("help", "version", "h") for x in a["args"]) and "-nosuch" not in a["args"]
         if (a["exit"] == 0 and a["success"] == 1) != (a["success"] == 1) or (a["success"] == 1 and not complete):
             ctx.add_violation("success was announced although the package was not fully written", dict(a, model=m))
         if a.get("idvalid") == 0 and not informational and "-nosuch" not in a["args"] and (a["created"] or a["success"] or a["exit"] == 0):
@@ -317,7 +332,7 @@ def run(ctx):
                 ctx.add_broken("correspondence: the CLI model and the binary disagree on %s" % json.dumps(s),
                                "args=%s\nbinary: exit=%s success=%s created=%s\nmodel : %s\noutput: %s" % (a["args"], a["exit"], a["success"], got_created, m, a["output"][-300:]))
     cov = {"evaluations": len(actual), "distinct_nontrivial": len(distinct),
-           "rule": "the real binary (built from the working tree) run in a fresh sandbox directory per scenario: flags (-debug -verbose -help -version -h, unknown flag, -name with/without value, -out; flags and a second file written after the input file) x input classes (valid; lexical, syntax, semantic error; token conflict; invalid pattern; LALR conflict; empty; missing file; directory; no file argument) x output location (cwd default, existing dir, missing, a file) x pre-existing <out>/<name> (missing, directory, directory holding lexer.go/types.go, file, symlink to a directory, dangling symlink) x names (usable and unusable identifiers); before/after snapshots (kind, mode, size, SHA-256 of every path), exit status, final message; plus write faults: two valid specifications run under RLIMIT_FSIZE = L with SIGXFSZ ignored for L swept around every file size, every 4096-byte boundary and 0/1, each compared with a reference run byte for byte and with the CLI model under the corresponding `half` faults; non-trivial = distinct scenario",
+           "rule": "the real binary (built from the working tree) run in a fresh sandbox directory per scenario: flags (-debug -verbose -help -version -h, unknown flag, -name with/without value, -out; flags and a second file written after the input file; 31 spellings of the command line: -x/--x, =value or next argument, boolean values, `--`, `-`, malformed flags, missing values, repeated flags) x input classes (valid; lexical, syntax, semantic error; token conflict; invalid pattern; LALR conflict; empty; missing file; directory; no file argument) x output location (cwd default, existing dir, missing, a file) x pre-existing <out>/<name> (missing, directory, directory holding lexer.go/types.go, file, symlink to a directory, dangling symlink) x names (usable and unusable identifiers); before/after snapshots (kind, mode, size, SHA-256 of every path), exit status, final message; plus write faults: two valid specifications run under RLIMIT_FSIZE = L with SIGXFSZ ignored for L swept around every file size, every 4096-byte boundary and 0/1, each compared with a reference run byte for byte and with the CLI model under the corresponding `half` faults; non-trivial = distinct scenario",
            "samples": [actual[0]["args"], actual[-1]["args"]], "outcomes": stats, "correspondence_disagreements": ncorr,
            "trusted_base": TRUSTED_BASE + ["Linux semantics of mkdir(2) and open(2) with O_CREAT|O_EXCL (fail with EEXIST on any existing path, including dangling symbolic links)",
                                          "translator fact fsops: the only calls in the tool's non-test code that can change the file system (C16_only_modelled_calls)",
